@@ -13,7 +13,7 @@ use vcore::gen::{self, StreamCfg};
 use vcore::rt::{self, digest_str, esc, Acc, Args, Report};
 use vcore::vt::{self, St};
 
-const RULE: &str = "A case is (colour choice, sink kind, constructor, operation sequence). Operation sequences of 0..30 ops from {write, write_all, write_vectored, write! with 1..3 fragments, flush} over data from G-STREAM cut at generated offsets (also inside escape sequences and multi-byte characters); choices {Auto, AlwaysAnsi, Always, Never} (Auto under two pinned environments: NO_COLOR=1 and CLICOLOR_FORCE=1); sinks {Vec<u8>, Box<dyn Write>, &mut Vec<u8>, File}. Oracle: Never => sink == what a StripStream<Vec<u8>> fed the same ops holds (same return values) == strip(bytes reported consumed); AlwaysAnsi/Always => sink == bytes reported consumed; current_choice reports the mode in force; into_inner returns exactly what was delivered; to_adapted_string strips or forwards according to the stream's choice. Non-trivial = at least two different write-family calls and an op boundary inside an escape sequence (distinct by case).";
+const RULE: &str = "A case is (colour choice, sink kind, constructor, operation sequence). Operation sequences of 0..30 ops from {write, write_all, write_vectored, write! with 1..3 fragments, write!/writeln! whose format string is a bare literal (35 escape-rich literals), flush}; write_vectored also with no buffers at all or only empty ones over data from G-STREAM cut at generated offsets (also inside escape sequences and multi-byte characters); choices {Auto, AlwaysAnsi, Always, Never} (Auto under two pinned environments: NO_COLOR=1 and CLICOLOR_FORCE=1); sinks {Vec<u8>, Box<dyn Write>, &mut Vec<u8>, File}. Oracle: Never => sink == what a StripStream<Vec<u8>> fed the same ops holds (same return values) == strip(bytes reported consumed); AlwaysAnsi/Always => sink == bytes reported consumed; current_choice reports the mode in force; into_inner returns exactly what was delivered; to_adapted_string strips or forwards according to the stream's choice. Non-trivial = at least two different write-family calls and an op boundary inside an escape sequence (distinct by case).";
 
 #[derive(Clone, Debug, Serialize, Deserialize, PartialEq)]
 enum Op {
@@ -21,6 +21,8 @@ enum Op {
     WriteAll(Vec<u8>),
     Vectored(Vec<Vec<u8>>),
     Fmt(Vec<String>),
+    /// write!/writeln! with literal #i of vcore::lits as the whole format string
+    Lit(usize, bool),
     Flush,
 }
 
@@ -90,6 +92,10 @@ fn apply(w: &mut dyn Write, op: &Op) -> Result<(Vec<u8>, Option<usize>), String>
             };
             r.map_err(|e| format!("write! failed: {e}"))?;
             Ok((p.concat().into_bytes(), None))
+        }
+        Op::Lit(i, nl) => {
+            vcore::lits::write_lit(w, *i, *nl).map_err(|e| format!("write! of a literal failed: {e}"))?;
+            Ok((vcore::lits::lit_bytes(*i, *nl), None))
         }
         Op::Flush => {
             w.flush().map_err(|e| format!("flush failed: {e}"))?;
@@ -253,6 +259,7 @@ fn check_case(case: &Case) -> Result<bool, String> {
             Op::WriteAll(b) => (1, b.clone()),
             Op::Vectored(b) => (2, b.concat()),
             Op::Fmt(p) => (3, p.concat().into_bytes()),
+            Op::Lit(i, nl) => (4, vcore::lits::lit_bytes(*i, *nl)),
             Op::Flush => continue,
         };
         kinds.insert(k);
@@ -270,7 +277,7 @@ fn arb_case(no_color: bool) -> impl Strategy<Value = Case> {
         prop_oneof![3 => Just(0u8), 3 => Just(1u8), 2 => Just(2u8), 1 => Just(3u8)],
         any::<bool>(),
         prop_oneof![gen::stream(StreamCfg { max_items: 14, ..StreamCfg::ALL }), gen::stream(StreamCfg { max_items: 14, ..StreamCfg::UTF8 })],
-        proptest::collection::vec((any::<u16>(), 0u8..10, any::<u16>()), 0..30),
+        proptest::collection::vec((any::<u16>(), 0u8..12, any::<u16>()), 0..30),
     )
         .prop_map(move |(choice, sink, via_new, items, cuts)| {
             let bytes = gen::render(&items);
@@ -290,7 +297,14 @@ fn arb_case(no_color: bool) -> impl Strategy<Value = Case> {
                     2 | 3 => Op::WriteAll(piece),
                     4 | 5 => {
                         let k = if piece.is_empty() { 0 } else { extra as usize % (piece.len() + 1) };
-                        Op::Vectored(vec![vec![], piece[..k].to_vec(), vec![], piece[k..].to_vec()])
+                        // shapes: no buffers at all, only empty ones, one buffer, data after / between empty ones
+                        match extra / 11 % 6 {
+                            0 => Op::Vectored(vec![]),
+                            1 => Op::Vectored(vec![vec![], vec![]]),
+                            2 => Op::Vectored(vec![piece]),
+                            3 => Op::Vectored(vec![piece[..k].to_vec(), piece[k..].to_vec(), vec![]]),
+                            _ => Op::Vectored(vec![vec![], piece[..k].to_vec(), vec![], piece[k..].to_vec()]),
+                        }
                     }
                     6 | 7 | 8 => match String::from_utf8(piece.clone()) {
                         Ok(s) => {
@@ -302,7 +316,12 @@ fn arb_case(no_color: bool) -> impl Strategy<Value = Case> {
                         }
                         Err(_) => Op::WriteAll(piece),
                     },
-                    _ => Op::Flush,
+                    9 => Op::Flush,
+                    _ => {
+                        // the piece first, then a literal formatted write (often the tail of a sequence the piece left open)
+                        ops.push(Op::WriteAll(piece));
+                        Op::Lit(extra as usize % vcore::lits::LITS.len(), extra & 0x4000 != 0)
+                    }
                 };
                 // `write` may legitimately consume less than offered only on a short
                 // inner write; our sinks accept everything, so the unconsumed tail of a
